@@ -342,7 +342,7 @@ pub fn check(case: &Case, w: usize) -> CheckResult {
         // the state the next invocation starts from
         let early: Vec<(String, u64)> = points
             .iter()
-            .filter(|(n, h)| *h == 1 && n != "lock.acquired" && n != "lock.attempt" && !LATE_POINTS.contains(&n.as_str()) && !n.starts_with("tracking.") && !n.starts_with("run.result") && !n.starts_with("run.pointer"))
+            .filter(|(n, h)| *h == 1 && n != "lock.acquired" && n != "lock.attempt" && !LATE_POINTS.contains(&n.as_str()) && !n.starts_with("tracking.") && !n.starts_with("run.pointer"))
             .cloned()
             .collect();
         if !early.is_empty() {
